@@ -126,10 +126,14 @@ def run(tier, seed):
     files, notes, cover = build(idx)
     wres, wbad = witnesses(idx)
     notes['witnesses'] = wres
+    # first half of the property, differential: chains of precondition-carrying operations on glam's own outputs, glam-assert vs plain builds
+    from .. import chains
+    cstat, cbad = chains.run(idx, seed, 1500 if tier == 'quick' else 20000, 12)
+    notes['chains'] = cstat; wbad = wbad + cbad[:10]
     per_fn = 2 if tier == 'quick' else 20
     # differential: the same calls on the assert and plain drivers must agree whenever the assert build returns
     return f1.run('C20', tier, seed, idx, info, t0, files, notes, cover, HDR, per_fn,
-        'erasure lemma per function whose translated closure differs between a configuration and the same configuration with glam-assert (functions with identical closures are the same definition and counted under notes.identical); documented-violation witnesses; correspondence: %d random calls per function on the plain tables' % per_fn,
-        ['Spec.v tactics; harness/props/C20.py (scope, witnesses)'],
+        'erasure lemma per function whose translated closure differs between a configuration and the same configuration with glam-assert (functions with identical closures are the same definition and counted under notes.identical); documented-violation witnesses; %d chains of 12 precondition-carrying operations on glam outputs run on the glam-assert and plain drivers (sse2, scalar-math): no panic, bit-identical values; correspondence: %d random calls per function on the plain tables' % (cstat['chains'], per_fn),
+        ['coq/theories/Erase.v (generic erasure theorem); coq/theories/UnitAlg.v (outputs of normalize / rotation constructors / unit-quaternion products are unit over the reals); harness/props/C20.py (scope, witnesses); harness/chains.py (chain generator)'],
         ['numeric margins (outputs of normalize / rotation constructors pass is_normalized with slack) are not proved here; they are exercised by the chain run of the thorough tier'],
         extra={'extra_violations': wbad})
